@@ -239,4 +239,90 @@ theorem C07_suffix_independent_of_damage (A Ed1' Ed2' B' : List Token) (nlA nlE1
     · obtain ⟨t, ht, hp⟩ := zE2.weaken x hx
       exact ⟨t, by simp at ht ⊢; rcases ht with h | h | h <;> simp [h], hp⟩
 
+/-! ### counterexamples (closed token lists taken from the real lexer; `decide`) -/
+
+/-- `unicode.IsLetter` / `IsDigit` restricted to ASCII: enough for the closed examples. -/
+def asciiClasses : Classes :=
+  ⟨fun c => (65 ≤ c && c ≤ 90) || (97 ≤ c && c ≤ 122), fun c => 48 ≤ c && c ≤ 57⟩
+
+/-- Tokens of `"2024-01-01\n"`. -/
+def cxEntry : List Token := [
+  ⟨.date, [50, 48, 50, 52, 45, 48, 49, 45, 48, 49], ⟨1, 1, 0⟩, ⟨1, 11, 10⟩⟩]
+def cxNl : Token := ⟨.newline, [10], ⟨1, 11, 10⟩, ⟨2, 1, 11⟩⟩
+/-- Tokens of the rest of the file `"  a:b  1\n"`: it starts with an Indent. -/
+def cxIndented : List Token := [
+  ⟨.indent, [32, 32], ⟨2, 1, 11⟩, ⟨2, 3, 13⟩⟩,
+  ⟨.account, [97, 58, 98], ⟨2, 3, 13⟩, ⟨2, 6, 16⟩⟩,
+  ⟨.number, [49], ⟨2, 8, 18⟩, ⟨2, 9, 19⟩⟩,
+  ⟨.newline, [10], ⟨2, 9, 19⟩, ⟨3, 1, 20⟩⟩,
+  ⟨.eof, [], ⟨3, 1, 20⟩, ⟨3, 1, 20⟩⟩]
+
+/-- The hypothesis "the rest of the file starts in column 1" of `C07_contained_tokens` cannot be
+    dropped: a rest that starts with an Indent is a continuation of the entry before it.  In
+    context (`2024-01-01⏎  a:b  1⏎`) it is a posting of the transaction and raises no error; on
+    its own it is one "unexpected token: Indent" error and no transaction. -/
+theorem C07_indent_continuation_counterexample :
+    (parseTokens defaultNumDeps asciiClasses (cxEntry ++ cxNl :: cxIndented)).2.length = 0 ∧
+    (parseTokens defaultNumDeps asciiClasses cxIndented).2.length = 1 ∧
+    ((parseTokens defaultNumDeps asciiClasses (cxEntry ++ cxNl :: cxIndented)).1.transactions.map
+      (·.postings.length)) = [1] ∧
+    (parseTokens defaultNumDeps asciiClasses cxIndented).1.transactions.length = 0 := by
+  decide +kernel
+
+/-- Tokens of `"2024-01-01 a\n  !!bad\n\n"`: a transaction whose only posting line is erroneous,
+    followed by a blank line. -/
+def cxBefore : List Token := [
+  ⟨.date, [50, 48, 50, 52, 45, 48, 49, 45, 48, 49], ⟨1, 1, 0⟩, ⟨1, 11, 10⟩⟩,
+  ⟨.text, [97], ⟨1, 12, 11⟩, ⟨1, 13, 12⟩⟩,
+  ⟨.newline, [10], ⟨1, 13, 12⟩, ⟨2, 1, 13⟩⟩,
+  ⟨.indent, [32, 32], ⟨2, 1, 13⟩, ⟨2, 3, 15⟩⟩,
+  ⟨.status, [33], ⟨2, 3, 15⟩, ⟨2, 4, 16⟩⟩,
+  ⟨.status, [33], ⟨2, 4, 16⟩, ⟨2, 5, 17⟩⟩,
+  ⟨.text, [98, 97, 100], ⟨2, 5, 17⟩, ⟨2, 8, 20⟩⟩,
+  ⟨.newline, [10], ⟨2, 8, 20⟩, ⟨3, 1, 21⟩⟩,
+  ⟨.newline, [10], ⟨3, 1, 21⟩, ⟨4, 1, 22⟩⟩]
+/-- Tokens of the next entry as written: `"2024-01-02 e\n  x:y  1\n"`. -/
+def cxNextIntact : List Token := [
+  ⟨.date, [50, 48, 50, 52, 45, 48, 49, 45, 48, 50], ⟨4, 1, 22⟩, ⟨4, 11, 32⟩⟩,
+  ⟨.text, [101], ⟨4, 12, 33⟩, ⟨4, 13, 34⟩⟩,
+  ⟨.newline, [10], ⟨4, 13, 34⟩, ⟨5, 1, 35⟩⟩,
+  ⟨.indent, [32, 32], ⟨5, 1, 35⟩, ⟨5, 3, 37⟩⟩,
+  ⟨.account, [120, 58, 121], ⟨5, 3, 37⟩, ⟨5, 6, 40⟩⟩,
+  ⟨.number, [49], ⟨5, 8, 42⟩, ⟨5, 9, 43⟩⟩,
+  ⟨.newline, [10], ⟨5, 9, 43⟩, ⟨6, 1, 44⟩⟩,
+  ⟨.eof, [], ⟨6, 1, 44⟩, ⟨6, 1, 44⟩⟩]
+/-- … and damaged by two blanks in front of its header: `"  2024-01-02 e\n  x:y  1\n"`. -/
+def cxNextDamaged : List Token := [
+  ⟨.indent, [32, 32], ⟨4, 1, 22⟩, ⟨4, 3, 24⟩⟩,
+  ⟨.date, [50, 48, 50, 52, 45, 48, 49, 45, 48, 50], ⟨4, 3, 24⟩, ⟨4, 13, 34⟩⟩,
+  ⟨.text, [101], ⟨4, 14, 35⟩, ⟨4, 15, 36⟩⟩,
+  ⟨.newline, [10], ⟨4, 15, 36⟩, ⟨5, 1, 37⟩⟩,
+  ⟨.indent, [32, 32], ⟨5, 1, 37⟩, ⟨5, 3, 39⟩⟩,
+  ⟨.account, [120, 58, 121], ⟨5, 3, 39⟩, ⟨5, 6, 42⟩⟩,
+  ⟨.number, [49], ⟨5, 8, 44⟩, ⟨5, 9, 45⟩⟩,
+  ⟨.newline, [10], ⟨5, 9, 45⟩, ⟨6, 1, 46⟩⟩,
+  ⟨.eof, [], ⟨6, 1, 46⟩, ⟨6, 1, 46⟩⟩]
+
+/-- **Containment fails for an entry BEFORE the damage** even across a blank line: when the last
+    posting line of a transaction had a syntax error, `parsePosting` skips to the next line and
+    the postings loop then swallows the blank line's Newline as well, so the transaction is
+    still open; if the damage makes the next entry's lines start with an Indent they become its
+    postings.  Intact file: first transaction has no posting, second has one.  Damaged file
+    (`  2024-01-02 e`): ONE transaction, which has gained the posting `x:y  1`, and its range
+    now ends on line 6.  Reproduced on the real parser (see the report / replays). -/
+theorem C07_blank_line_after_error_counterexample :
+    ((parseTokens defaultNumDeps asciiClasses (cxBefore ++ cxNextIntact)).1.transactions.map
+      (fun t => (t.postings.map (·.account.name), t.range.stop.line))) = [([], 4), ([[120, 58, 121]], 6)] ∧
+    ((parseTokens defaultNumDeps asciiClasses (cxBefore ++ cxNextDamaged)).1.transactions.map
+      (fun t => (t.postings.map (·.account.name), t.range.stop.line))) = [([[120, 58, 121]], 6)] := by
+  decide +kernel
+
+/-- Non-vacuity of `C07_contained_tokens`: the intact file above has the required shape
+    (`A = cxBefore` without its last Newline, the entry `2024-01-02 e …`, then just the EOF);
+    its hypotheses are decidable and hold. -/
+example :
+    (∀ t ∈ cxBefore.dropLast, t.ty ≠ .eof) ∧ (cxBefore.getLast?.map (·.ty)) = some .newline ∧
+    (cxNextIntact.head?.map (·.ty)) = some .date := by
+  decide +kernel
+
 end HL.Props.C07
